@@ -779,7 +779,14 @@ func builtinSprintfFunc(c Call) (ret Object, err error) {
 }
 
 func builtinGlobalsFunc(c Call) (Object, error) {
-	return c.VM().GetGlobals(), nil
+	// called through Call() there is no VM, and a VM has no globals before
+	// its first run
+	if vm := c.VM(); vm != nil {
+		if g := vm.GetGlobals(); g != nil {
+			return g, nil
+		}
+	}
+	return Undefined, nil
 }
 
 func builtinIsErrorFunc(c Call) (ret Object, err error) {
